@@ -910,7 +910,9 @@ func (pdCoord *PDCoordinator) handleNamespaceMigrate(origNSInfo *cluster.Partiti
 	}
 
 	// avoid removing any node if current alive replicas is not enough
-	if len(nsInfo.Removings) > 0 && aliveReplicas <= nsInfo.Replica/2 {
+	// (also compared with the actual replicas, since the replica factor may be lowered
+	// while the old replicas are still in the raft group)
+	if len(nsInfo.Removings) > 0 && (aliveReplicas <= nsInfo.Replica/2 || 2*aliveReplicas < len(nsInfo.RaftNodes)) {
 		cluster.CoordLog().Infof("namespace: %v alive replica %v is not enough while removing node", nsInfo.GetDesp(), aliveReplicas)
 		return ErrNamespaceMigrateWaiting
 	}
